@@ -199,4 +199,195 @@ Proof.
   destruct (_ || _); [|reflexivity]. destruct (dl <? 6)%nat; reflexivity.
 Qed.
 
+(* every answer with DNS id 0 is the direct answer to the event's own query *)
+Lemma step_answer_id0 c st e i : wf_event e ->
+  In i (answers (ev_inst e) (snd (step login zc unz c st e))) -> inst_id i = 0 -> ev_inst e = Some i.
+Proof.
+  intros Hwf Hin Hz. destruct (step_acc c st e Hwf) as [d A].
+  pose proof (acc_answers_from _ _ _ _ _ _ A i) as Hc.
+  assert (Hp : (1 <= cnt (answers (ev_inst e) (snd (step login zc unz c st e))) i)%nat).
+  { unfold cnt. apply (count_occ_In inst_dec) in Hin. lia. }
+  rewrite cnt_app in Hc.
+  assert (Hh : cnt (held st) i = 0%nat).
+  { unfold cnt. apply count_occ_not_In. intros Hi. apply held_ids in Hi. contradiction. }
+  assert (Hq : (1 <= cnt (ev_pool e) i)%nat) by lia.
+  unfold ev_pool in Hq. destruct (ev_inst e) as [j|]; [|simpl in Hq; lia].
+  rewrite cnt_cons, cnt_nil in Hq. unfold cnt1 in Hq. destruct (inst_dec j i); [congruence|lia].
+Qed.
+
+(* ---- accepted pings and data queries: the older query goes first ------------------------------- *)
+
+Definition ping_accepted (c : cfg) (st : sstate) (now : N) (q : hq) (unpacked : list N) : Prop :=
+  let userid := schar (chr unpacked 0) in
+  let u := getu st (Z.to_nat userid) in
+  check_auth c st now userid (h_from q) = false /\
+  answer_from_dnscache u (h_name q) (h_type q) = None /\
+  qmem_hit (u_pingmem u) (firstn 4 unpacked) (h_type q) = false /\
+  dup_pending u q WQ = false /\ dup_pending u q WQS = false.
+
+Lemma ping_accepted_guard c st now q unpacked :
+  ping_accepted c st now q unpacked -> ping_guard c st now q unpacked = None.
+Proof.
+  unfold ping_accepted, ping_guard. cbv zeta. intros (H1 & H2 & H3 & H4 & H5).
+  rewrite H1, H2, H3, H4, H5. reflexivity.
+Qed.
+
+Lemma handle_ping_accepted qi c st now q unpacked :
+  ping_accepted c st now q unpacked -> h_id q <> 0 -> h_id2 q = 0 ->
+  let i := Z.to_nat (schar (chr unpacked 0)) in
+  let u := getu st i in
+  let r := handle_ping c st now q unpacked in
+  let u' := getu (fst r) i in
+  acc qi [q_inst q] st (fst r) (snd r) [] /\
+  (h_id (u_q u) <> 0 -> answered_by (snd r) (u_q u)) /\
+  (h_id (u_qs u) <> 0 -> answered_by (snd r) (u_qs u)) /\
+  (u_q u' = q \/ (answered_by (snd r) q /\ h_id (u_q u') = 0)) /\
+  h_id (u_qs u') = 0 /\
+  (u_lazy u = false -> answered_by (snd r) q).
+Proof.
+  intros Ha Hn H2. pose proof Ha as (Hc & _). apply check_auth_inrange in Hc.
+  cbv zeta. rewrite handle_ping_eq, (ping_accepted_guard _ _ _ _ _ Ha). cbv zeta.
+  destruct (ping_tail _ now q unpacked) as [u5 outs] eqn:T. cbn [fst snd].
+  apply (ping_tail_spec qi) in T; [|assumption..]. destruct T as (A & Q & S & N' & Z & _ & L).
+  rewrite getu_upd_same by exact Hc.
+  split; [apply acc_upd; assumption|]. auto.
+Qed.
+
+Definition data_accepted (c : cfg) (st : sstate) (now : N) (q : hq) (inb : list N) : Prop :=
+  let code := data_code inb in
+  let u := getu st (N.to_nat code) in
+  check_auth c st now (Z.of_N code) (h_from q) = false /\
+  answer_from_dnscache u (h_name q) (h_type q) = None /\
+  qmem_hit (u_datamem u) (lower4 (h_name q)) (h_type q) = false /\
+  dup_pending u q WQ = false /\ dup_pending u q WQS = false.
+
+Lemma data_accepted_guard c st now q inb :
+  data_accepted c st now q inb -> data_guard c st now q inb = None.
+Proof.
+  unfold data_accepted, data_guard. cbv zeta. intros (H1 & H2 & H3 & H4 & H5).
+  rewrite H1, H2, H3, H4, H5. reflexivity.
+Qed.
+
+Lemma handle_data_accepted qi c st now q inb dl :
+  data_accepted c st now q inb -> h_id q <> 0 -> h_id2 q = 0 ->
+  let i := N.to_nat (data_code inb) in
+  let u := getu st i in
+  let r := handle_data unz c st now q inb dl in
+  let u' := getu (fst r) i in
+  acc qi [q_inst q] st (fst r) (snd r) [] /\
+  (h_id (u_qs u) <> 0 -> answered_by (snd r) (u_qs u)) /\
+  (h_id (u_q u) <> 0 ->
+     answered_by (snd r) (u_q u) \/
+     (u_qs u' = u_q u /\ u_lazy u' = true /\ u_qs_new u' = true /\ u_q u' = q /\
+      (h_id (u_qs u) <> 0 -> answered_by (snd r) (u_qs u)))) /\
+  (u_q u' = q \/ (u_qs u' = q /\ h_id (u_q u') = 0) \/ (answered_by (snd r) q /\ h_id (u_q u') = 0)) /\
+  (u_lazy u = false -> answered_by (snd r) q \/ u_qs u' = q).
+Proof.
+  intros Ha Hn H2. pose proof Ha as (Hc & _). apply check_auth_inrange in Hc.
+  replace (Z.to_nat (Z.of_N (data_code inb))) with (N.to_nat (data_code inb)) in Hc by lia.
+  cbv zeta. rewrite handle_data_eq, (data_accepted_guard _ _ _ _ _ Ha).
+  destruct (data_tail unz st now q _ inb dl) as [st' outs] eqn:T. cbn [fst snd].
+  apply (data_tail_spec unz qi) in T; [|assumption..]. exact T.
+Qed.
+
+(* ---- datagram level: what the correspondence run executes ----------------------------------------- *)
+
+(* the event a datagram on the DNS socket amounts to (None: dropped by read_dns) *)
+Definition dgram_event (c : cfg) (st : sstate) (now rnd : N) (from : addr) (dest : option (list N))
+           (packet : list N) : option event :=
+  match packet with
+  | [] => None
+  | _ =>
+    match raw_decode login unz c st now packet from with
+    | Some _ => Some (ERaw now from packet)
+    | None =>
+        let r := dns_decode_query packet (length packet) in
+        match dq_q r with
+        | Some q =>
+            if (0 <? dq_rv r)%Z
+            then Some (EDns now rnd {| h_name := q_name q; h_type := q_type q; h_id := q_id q; h_from := from;
+                                       h_id2 := 0; h_from2 := addr0; h_dest := dest |})
+            else None
+        | None => None
+        end
+    end
+  end.
+
+Lemma recv_datagram_step c st now rnd from dest packet :
+  recv_datagram login unz c st now rnd from dest packet =
+  match dgram_event c st now rnd from dest packet with
+  | Some e => step login zc unz c st e
+  | None => (st, [])
+  end.
+Proof.
+  unfold recv_datagram, dgram_event. destruct packet as [|b p]; [reflexivity|].
+  destruct (raw_decode login unz c st now (b :: p) from) as [r|] eqn:R.
+  - simpl. rewrite R. reflexivity.
+  - cbv zeta. destruct (dq_q _); [|reflexivity]. destruct (0 <? _)%Z; reflexivity.
+Qed.
+
+Lemma dgram_event_wf c st now rnd from dest packet e :
+  dgram_event c st now rnd from dest packet = Some e -> wf_event e.
+Proof.
+  unfold dgram_event. destruct packet as [|b p]; [discriminate|].
+  destruct (raw_decode _ _ _ _ _ _ _).
+  - intros H. inversion H. exact I.
+  - cbv zeta. destruct (dq_q _); [|discriminate]. destruct (0 <? _)%Z; [|discriminate].
+    intros H. inversion H. reflexivity.
+Qed.
+
+(* history events as in harness/h_srvhist.c and ocaml/drv_srv.ml: X (datagram), T (tun), S (sweep) *)
+Inductive hevent :=
+| HDgram (now rnd : N) (from : addr) (dest : option (list N)) (packet : list N)
+| HTun (now : N) (packet : list N)
+| HSweep (now : N).
+
+Definition hstep (c : cfg) (st : sstate) (h : hevent) : sstate * list out :=
+  match h with
+  | HDgram now rnd from dest packet => recv_datagram login unz c st now rnd from dest packet
+  | HTun now packet => tunnel_tun zc st now packet
+  | HSweep now => let st1 := sweep_clear st now in sweep_send (length st1) 0 st1 now []
+  end.
+
+(* the received instance of a history event: only a datagram that decodes as a DNS query counts *)
+Definition h_inst (c : cfg) (st : sstate) (h : hevent) : option inst :=
+  match h with
+  | HDgram now rnd from dest packet =>
+      match dgram_event c st now rnd from dest packet with Some e => ev_inst e | None => None end
+  | _ => None
+  end.
+Definition h_pool (c : cfg) (st : sstate) (h : hevent) : list inst :=
+  match h_inst c st h with Some i => [i] | None => [] end.
+
+Lemma Inv_hstep c st h received answered : Inv st received answered ->
+  Inv (fst (hstep c st h)) (h_pool c st h ++ received) (answered ++ answers (h_inst c st h) (snd (hstep c st h))).
+Proof.
+  intros HI. destruct h as [now rnd from dest packet|now packet|now]; unfold h_pool, h_inst, hstep.
+  - rewrite recv_datagram_step. destruct (dgram_event c st now rnd from dest packet) as [e|] eqn:E.
+    + apply (Inv_one_step c st e); [eapply dgram_event_wf; exact E|exact HI].
+    + cbn [fst snd answers flat_map]. rewrite app_nil_r. exact HI.
+  - exact (Inv_one_step c st (ETun now packet) received answered I HI).
+  - pose proof (Inv_one_step c st (ESweepClear now) received answered I HI) as H1.
+    cbn [step fst snd ev_inst ev_pool answers flat_map] in H1. rewrite app_nil_r in H1. simpl app in H1.
+    pose proof (Inv_one_step c (sweep_clear st now) (ESweepSend now) received answered I H1) as H2.
+    exact H2.
+Qed.
+
+Fixpoint hrun (c : cfg) (st : sstate) (hs : list hevent) (received answered : list inst)
+  : sstate * list inst * list inst :=
+  match hs with
+  | [] => (st, received, answered)
+  | h :: rest =>
+      let r := hstep c st h in
+      hrun c (fst r) rest (h_pool c st h ++ received) (answered ++ answers (h_inst c st h) (snd r))
+  end.
+
+Lemma Inv_hrun c hs : forall st received answered, Inv st received answered ->
+  let '(st', rc, an) := hrun c st hs received answered in Inv st' rc an.
+Proof.
+  induction hs as [|h hs IH]; intros st rc an HI; simpl.
+  - exact HI.
+  - apply IH. apply Inv_hstep. exact HI.
+Qed.
+
 End WithOracles.
